@@ -98,7 +98,7 @@ def levels_for(matrix, charset):
         return None, 'data contain CR/LF'
     if set(BASE[:3]) & cs:
         return None, 'data contain a base delimiter'
-    table = sub_table(charset, icvn_of(matrix))
+    table = sub_table(charset[0], icvn_of(matrix))
     if BASE[2] not in table:
         return None, 'base component separator outside the character set'
     segs = tuple(c for c in SEGS if c not in cs)
@@ -168,7 +168,8 @@ def ack_body(ack):
 def observe(text, charset):
     from mc import pipe
     pipe.stub_clock()
-    o = pipe.run(text, sinks=('ack',), charset=charset, want_nodes=False)
+    # 'E*': every output requested (acknowledgement, HTML report, XML); what is compared stays the same
+    o = pipe.run(text, sinks=(('ack', 'html', 'xml') if charset.endswith('*') else ('ack',)), charset=charset[0], want_nodes=False)
     exc = '%s@%s' % (o.exc, o.exc_where) if o.exc else None
     errs = frozenset(o.errors) if o.errors is not None else None
     return {'verdict': o.verdict, 'exc': exc, 'tree_exc': o.tree_exc, 'errors': errs, 'ack': ack_body(o.ack),
@@ -328,6 +329,9 @@ def materialise(thorough):
         ITEMS.append((lab, fam, kind, m, 'E'))
         if d.entry[4] in CHARSET_B_MAPS or (fam == 'valid' and kind == 'min'):
             ITEMS.append((lab, fam, kind, m, 'B'))
+        if (fam == 'valid' and kind == 'min') or (fam == 'fault' and d.entry[4] in CHARSET_B_MAPS and kind in ('too-long', 'unknown-id', 'outside-code-list')):
+            # the same comparison with every output requested: the other writers see the delimiters too
+            ITEMS.append((lab, fam, kind, m, 'E*'))
         if fam == 'valid' and kind == 'min':
             for ml, mm in mutants(d.text(), thorough):
                 ITEMS.append(('mutant:%s:%s' % (d.entry[4], ml), 'mutant', ml.split('@')[0], mm, 'E'))
@@ -402,6 +406,7 @@ def run(R):
                 'encodings': '{~,LF,!,FS,{} x {*,|,+,GS(0x1d)} x {:,>,backslash,percent} x {none,LF,CRLF,CR}, delimiters absent from the data, line break disjoint '
                              'from the delimiters, component separator in the declared character set: %d for charset E; ' % len(full)
                              + ('all of them' if R.thorough else 'base + every single-factor change + greedy pairwise covering array (%d)' % len(quick_encodings((SEGS, ELES, SUBS)))),
+                'outputs': 'acknowledgement only; and (charset E*) acknowledgement + HTML report + XML for every minimal document and three fault kinds of 4 maps',
                 'charset': "E for every document; B (component separator ':' only) for every minimal document and all documents of %s" % ', '.join(CHARSET_B_MAPS)}
     R.assumptions = ['documents on which validation raises in the base encoding are C07 matters and skipped (counted)',
                      'ISA16 is the declared component separator and not data; ISA11 (repetition separator / standards id) is kept fixed',
